@@ -44,6 +44,40 @@ class Monitors(object):
         detail['workload'] = self.tag
         return self.ctx.check(ok, mech, self.cid, **detail)
 
+    # -- ledger of earlier results: what a call returned is the caller's from then on -----------------
+    LEDGER_LEN, LEDGER_MAX_ELEMS = 3, 60000
+
+    def call(self, tag, orig, *a, **k):
+        """orig(*a, **k) with the ledger around it: the results of the last few monitored calls are fingerprinted just
+        before this call (whatever the driver did to them in between is the driver's business) and again just after it;
+        a difference was made by this call.  Nested monitored calls are part of the outer one."""
+        from rv.fingerprint import fp
+        L = self.__dict__.setdefault('_ledger', [])
+        outer = not self.__dict__.get('_ldepth', 0)
+        if outer:
+            for e in L:
+                e[2] = fp(e[1], ident=False)
+        self._ldepth = self.__dict__.get('_ldepth', 0) + 1
+        try:
+            out = orig(*a, **k)
+        finally:
+            self._ldepth -= 1
+        if outer:
+            try:
+                for e in L:
+                    self.ctx.counters['chk_ledger'] += 1
+                    now = fp(e[1], ident=False)
+                    if not self.chk(now == e[2], e[0] + ':earlier-result-changed-by-later-call', later_call=tag):
+                        e[2] = now
+                n = sum(int(np.size(x)) for x in (out if isinstance(out, tuple) else (out,)) if isinstance(x, np.ndarray))
+                if n <= self.LEDGER_MAX_ELEMS and out is not None:
+                    L.append([tag, out, None])
+                    del L[:-self.LEDGER_LEN]
+            except Exception as e_:   # noqa
+                self.ctx.note('oracle-error ledger: ' + core.exc_str(e_))
+                self.ctx.counters['oracle_errors'] += 1
+        return out
+
     # -- C03 / C06 / C07: unit conversions -------------------------------------
     def attach_transform(self):
         T = self.F.transform
@@ -58,7 +92,7 @@ class Monitors(object):
             args = (channels, amplification_type, amplifier_gain, resolution)
             fa = [fp(a) for a in args]
             snap = [list(a) if isinstance(a, list) else a for a in args]       # the values as the caller passed them
-            out = orig(data, channels, amplification_type, amplifier_gain, resolution)
+            out = self.call('rfi', orig, data, channels, amplification_type, amplifier_gain, resolution)
             try:
                 self.chk([fp(a) for a in args] == fa, 'rfi:caller-argument-mutated',
                          which=[n for n, a, b in zip(('channels', 'amplification_type', 'amplifier_gain', 'resolution'),
@@ -78,7 +112,7 @@ class Monitors(object):
             args = (channels, sc_list, sc_channels)
             fa = [fp(a) for a in args]
             snap = [list(a) if isinstance(a, list) else a for a in args]
-            out = orig(data, channels, sc_list, sc_channels)
+            out = self.call('mef', orig, data, channels, sc_list, sc_channels)
             try:
                 self.chk([fp(a) for a in args] == fa, 'mef:caller-argument-mutated',
                          which=[n for n, a, b in zip(('channels', 'sc_list', 'sc_channels'), [fp(a) for a in args], fa) if a != b])
@@ -93,7 +127,7 @@ class Monitors(object):
     def _wrap_transform(self, orig):
         def transform(data, channels, transform_fxn, def_channels=None):
             pre = snapshot(data)
-            out = orig(data, channels, transform_fxn, def_channels)
+            out = self.call('transform', orig, data, channels, transform_fxn, def_channels)
             try:
                 oracle_transform(self, pre, data, channels, transform_fxn, def_channels, out)
             except Exception as e:   # noqa
@@ -388,7 +422,7 @@ def _wrap_gate(mon, orig, oracle):
             asked = list(args['channels']) if isinstance(args.get('channels'), list) else args.get('channels')
         except Exception:   # noqa  (bad call: let the real function produce its own error)
             pre = None
-        out = orig(*a, **k)
+        out = mon.call(orig.__name__, orig, *a, **k)
         if pre is not None:
             try:
                 if 'channels' in args:
@@ -628,7 +662,7 @@ def _wrap_stat(mon, orig, name):
         pre = snapshot(data) if isinstance(data, np.ndarray) else None
         fa = fp(channels)
         asked = list(channels) if isinstance(channels, list) else channels
-        out = orig(data, channels)
+        out = mon.call('stat', orig, data, channels)
         if pre is not None:
             try:
                 # the request object stays the caller's: rewritten in place (e.g. negative positions resolved against THIS
@@ -778,7 +812,7 @@ Monitors.attach_fit = _attach_fit
 def _wrap_fit(mon, orig):
     def fit_beads_autofluorescence(fl_rfi, fl_mef):
         a0, b0 = np.array(fl_rfi, dtype=float, copy=True), np.array(fl_mef, dtype=float, copy=True)
-        out = orig(fl_rfi, fl_mef)
+        out = mon.call('fit', orig, fl_rfi, fl_mef)
         try:
             # history: what an earlier fit returned (parameters, standard curve, bead model) still is what it was
             probe = np.array([0.5, 3.0, 40.0, 700.0, 9000.0, 2.0e5])
@@ -939,7 +973,7 @@ def _wrap_hist_bins(mon, orig):
         from rv.fingerprint import fp
         fa = [fp(channels), fp(nbins), fp(scale)]
         asked = [list(x) if isinstance(x, list) else x for x in (channels, nbins, scale)]
-        out = orig(self, channels, nbins, scale, **kwargs)
+        out = mon.call('hist_bins', orig, self, channels, nbins, scale, **kwargs)
         if pre_range is not None:
             try:
                 mon.chk([fp(channels), fp(nbins), fp(scale)] == fa, 'hist_bins:caller-argument-mutated',
